@@ -40,7 +40,7 @@ func zzSameKeys(ia []crypto.Hash, ka []*crypto.Key, ib []crypto.Hash, kb []*cryp
 // with consensus indexes and signer keys, thresholds, pledging node, consensus key vectors
 // and the elected operator. Queries are made in both orders.
 func ZZ_C11_views() {
-	extra := 2
+	extra := 1
 	if vr.Tier() > 0 {
 		extra = 3
 	}
@@ -58,7 +58,7 @@ func ZZ_C11_views() {
 	ts := vr.U64()
 	vr.Assume(ts >= full.Epoch && ts <= last.Timestamp) // the withheld record does not precede ts
 	vr.Cover("later-record-withheld")
-	if vr.Bool() {
+	if vr.Tier() > 0 && vr.Bool() {
 		// a query at another time first must not disturb the answer (no hidden state)
 		other := vr.U64()
 		vr.Assume(other >= full.Epoch && other < 1<<62)
